@@ -27,7 +27,8 @@ EXPLANATION = (
     "C13.FREQ: a rule text without FREQ is rejected with ValueError before the constructor is called. C13.EXC: the "
     "exception-escape analysis from rrulestr() (through the date parser it uses) finds only ValueError subclasses or "
     "OverflowError (numbers too large for the platform) escaping for text input; TypeError only for an ill-typed "
-    "tzinfos value.")
+    "tzinfos value."
+    ' C13.LAZY: every read of the lazily imported module global `parser` in a function that imported it itself in the confirmed tree is preceded on every path by that import or by the `not parser` guard.')
 ASSUMPTIONS = ["parser.parse and tz.gettz resolve dates and TZIDs as documented (C02/C18)",
                "same occurrences for every rule and spelling: NOT decided"]
 
